@@ -174,7 +174,8 @@ def run(ck, rng, tier):
                     break
                 share = 100 * w[k] / tr
                 cosang = abs(float(P[:, k] @ V[:, k]))
-                if abs(ve[k] - share) > 0.05 or cosang < 1 - 1e-5:
+                # a component carrying less than 1e-12 of the trace is resolved less sharply (rounding of the larger ones)
+                if abs(ve[k] - share) > 0.05 or cosang < 1 - 1e-5 * max(1.0, 1e-12 * tr / w[k]):
                     small = mag <= 0.05 and scaling in (0, -1)
                     ck.fail("PCA", "not_principal_axis_small_magnitude" if small else "not_principal_axis",
                             "component %d: explained variance %.6f (eigenvalue share %.6f), |cos(loading, eigenvector)| = %.8f; shape %dx%d scaling %d magnitude %g"
